@@ -24,15 +24,19 @@ type Decls struct {
 	strUF    bool // strings as uninterpreted sort
 	heapSort map[string]string
 	subKinds map[string]int
+	ufLits   []string
+	refHeap  map[string]bool // heaps whose cells hold references (pointers, maps, chans, funcs)
 }
 
 func newDecls() *Decls {
-	d := &Decls{seen: map[string]bool{}, tagOf: map[string]int{}, heapSort: map[string]string{}, subKinds: map[string]int{}}
+	d := &Decls{seen: map[string]bool{}, tagOf: map[string]int{}, heapSort: map[string]string{}, subKinds: map[string]int{}, refHeap: map[string]bool{}}
 	d.add("Slice", "(declare-datatypes ((Slice 0)) (((mk-slice (s.arr Int) (s.off Int) (s.len Int) (s.cap Int)))))")
 	d.add("Iface", "(declare-datatypes ((Iface 0)) (((mk-iface (i.tag Int) (i.val Int)))))")
 	d.add("nil-iface", "(define-fun nil-iface () Iface (mk-iface 0 0))")
 	d.add("nil-slice", "(define-fun nil-slice () Slice (mk-slice 0 0 0 0))")
 	d.add("refkind", "(declare-fun refkind (Int) Int)")
+	// rootref: the allocated object (or global) an address belongs to; interior addresses of nested structs map to their root
+	d.add("rootref", "(declare-fun rootref (Int) Int)\n(assert (forall ((p Int)) (! (=> (> p (- 1000000)) (= (rootref p) p)) :pattern ((rootref p)))))")
 	return d
 }
 
@@ -44,7 +48,13 @@ func (d *Decls) add(key, decl string) {
 	d.order = append(d.order, decl)
 }
 
-func (d *Decls) text() string { return strings.Join(d.order, "\n") + "\n" }
+func (d *Decls) text() string {
+	t := strings.Join(d.order, "\n") + "\n"
+	if len(d.ufLits) > 1 {
+		t += "(assert (distinct " + strings.Join(d.ufLits, " ") + "))\n"
+	}
+	return t
+}
 
 func sym(s string) string {
 	ok := true
@@ -199,6 +209,7 @@ func (d *Decls) fieldHeap(t types.Type, i int) string {
 	name := "H." + d.structBase(t) + "." + st.Field(i).Name()
 	if _, ok := d.heapSort[name]; !ok {
 		d.heapSort[name] = "(Array Int " + d.sortOf(st.Field(i).Type()) + ")"
+		d.refHeap[name] = isRefLike(st.Field(i).Type())
 	}
 	return name
 }
@@ -210,8 +221,8 @@ func (d *Decls) subRef(t types.Type, i int) string {
 	if !d.seen["sub:"+name] {
 		k := len(d.subKinds) + 1
 		d.subKinds[name] = k
-		d.add("sub:"+name, fmt.Sprintf("(declare-fun %s (Int) Int)\n(declare-fun %s (Int) Int)\n(assert (forall ((p Int)) (! (and (< (%s p) 0) (= (%s (%s p)) p) (= (refkind (%s p)) %d)) :pattern ((%s p)))))",
-			name, sym("inv."+name), name, sym("inv."+name), name, name, k, name))
+		d.add("sub:"+name, fmt.Sprintf("(declare-fun %s (Int) Int)\n(declare-fun %s (Int) Int)\n(assert (forall ((p Int)) (! (and (< (%s p) (- 1000000)) (= (%s (%s p)) p) (= (refkind (%s p)) %d) (= (rootref (%s p)) (rootref p))) :pattern ((%s p)))))",
+			name, sym("inv."+name), name, sym("inv."+name), name, name, k, name, name))
 	}
 	return name
 }
@@ -224,6 +235,7 @@ func (d *Decls) cellHeap(elem types.Type) string {
 	}
 	if _, ok := d.heapSort[name]; !ok {
 		d.heapSort[name] = "(Array Int " + d.sortOf(elem) + ")"
+		d.refHeap[name] = isRefLike(elem)
 	}
 	return name
 }
@@ -332,12 +344,20 @@ func (d *Decls) zero(t types.Type) string {
 	return "opaque-zero"
 }
 
+func (d *Decls) strUFDecls() {
+	d.sortOf(types.Typ[types.String])
+	d.add("str.cat", "(declare-fun str.cat (Str Str) Str)\n(declare-fun str.lt (Str Str) Bool)\n(declare-fun strlen (Str) Int)\n(assert (forall ((s Str)) (! (>= (strlen s) 0) :pattern ((strlen s)))))")
+}
+
 func (d *Decls) strLit(s string) string {
 	if !d.strUF {
 		return smtString(s)
 	}
 	name := sym(fmt.Sprintf("str!%x", hashStr(s)) + "!" + mangle(s))
 	d.sortOf(types.Typ[types.String])
+	if !d.seen["strlit:"+s] {
+		d.ufLits = append(d.ufLits, name)
+	}
 	d.add("strlit:"+s, fmt.Sprintf("(declare-const %s Str)", name))
 	return name
 }
